@@ -322,3 +322,51 @@ func zzC12_selftest() {
 	cc.ReleaseMessage(m)
 	m.SetCode(codes.GET) // use after release: the ghost state must flag this
 }
+
+// a keep-alive ping is cancelled (its caller gave up) while the housekeeping sweep is walking the retransmission
+// table: the sweep takes each element with the table unlocked, so it may look at the ping's element just after the
+// cancel removed it - the ping message goes back to the pool exactly once and is not touched afterwards
+func zzC12_ping_cancel_race() {
+	symGhost(true)
+	s := zzNewSession()
+	cc := zzNewConn(s, zzConnCfg{midSeed: 1000, nstart: 2, maxRetrans: 2, ackTimeout: 1 << 20, poolSize: 1024})
+	now := int64(1 << 41)
+	symSetNow(time.Unix(0, now))
+	cancel, err := cc.AsyncPing(func() {})
+	symAssert(err == nil, "the ping is sent")
+	if err != nil {
+		return
+	}
+	// another outstanding request, so that the sweep has more than one element to walk
+	a := &zzCall{token: message.Token{0xB1}}
+	go zzDo(cc, a)
+	zzWaitWritten(s, 2)
+	symIdle()
+	swept := false
+	late := now + 1<<24
+	go func() {
+		symSetNow(time.Unix(0, late))
+		cc.CheckExpirations(time.Unix(0, late))
+		swept = true
+	}()
+	cancel()
+	symWaitUntil(func() bool { return swept })
+	symCover("cancel-raced-sweep")
+	// whoever acquires messages now owns them exclusively
+	x, y, z := cc.AcquireMessage(cc.Context()), cc.AcquireMessage(cc.Context()), cc.AcquireMessage(cc.Context())
+	symAssert(x != y && y != z && x != z, "the pool never hands one message to two owners")
+	x.SetCode(codes.GET)
+	_ = x.SetPath("/private")
+	late += 1 << 26
+	symSetNow(time.Unix(0, late))
+	before := len(s.written)
+	cc.CheckExpirations(time.Unix(0, late))
+	for _, w := range s.written[before:] {
+		symAssert(w.code != codes.GET || len(w.token) > 0, "the sweep never transmits a message that belongs to another owner")
+	}
+	zzAnswer(cc, s.written[1], 1, 0, 1)
+	symWaitUntil(func() bool { return a.done })
+	if a.resp != nil {
+		cc.ReleaseMessage(a.resp)
+	}
+}
